@@ -121,7 +121,9 @@ func clip(s string, n int) string {
 	return s
 }
 
-func allProfiles() []prog.Profile { return append(prog.Profiles(), prog.ScaleProfile(), prog.SiblingsProfile()) }
+func allProfiles() []prog.Profile {
+	return append(prog.Profiles(), prog.ScaleProfile(), prog.SiblingsProfile())
+}
 
 func worker(c *fw.Ctx) *fw.Stats {
 	st := fw.NewStats()
